@@ -143,12 +143,43 @@ def shard_k(prop: str, tier: str, seed: int, names: list[str]) -> dict[str, Any]
     return c.export()
 
 
-def shard_i(prop: str, tier: str, seed: int, which: str) -> dict[str, Any]:
-    from vlib.engine_i import SCENARIOS, run_scenario_schedules
+def shard_i(prop: str, tier: str, seed: int, family: str, which: str) -> dict[str, Any]:
+    """Audit rows of racing-worker runs (the C04 / C07 / C11 scenarios under random pre-emption schedules)."""
+    import random
+
+    from vlib.engine_d import Schedule
+    from vlib.engine_i import handle_one, run_schedule
 
     c = Campaign(prop, tier, seed, LEVEL)
-    for audit, case in run_scenario_schedules(which, seed, 60 if tier == "quick" else 600):
-        judge_audit(c, audit, case, [f"scenario:{which}"], "I")
+    rnd = random.Random(seed)
+    if family == "c04":
+        from checks import c04 as mod
+
+        sc = mod.scenarios()[which]
+        prep = mod.prepare(sc)
+        mk, progs, nthreads = mod.make_world_factory(prep), mod.programs_for(sc), sc["workers"]
+    elif family == "c11":
+        from checks import c11 as mod
+
+        sc = mod.scenarios()[which]
+        prep = mod.prepare(sc)
+        mk, progs, nthreads = mod.make_world_factory(prep), mod.programs_for(sc), sc["workers"] + (1 if sc.get("sweep") else 0)
+    else:
+        from checks import c07 as mod
+
+        sc = mod.pair_scenarios()[which]
+        prep = mod.prepare_pair(sc)
+        mk, progs, nthreads = mod.make_pair_world(prep, sc), (lambda w_: [handle_one() for _ in range(sc["workers"])]), sc["workers"]
+    w, s = run_schedule(mk, progs, {})
+    total = max(5, s.yields)
+    for i in range(12 if tier == "quick" else 200):
+        pre = {} if i == 0 else {rnd.randrange(0, total): rnd.randrange(0, nthreads) for _ in range(rnd.randint(1, 5))}
+        w, s = run_schedule(mk, progs, pre)
+        run = Run(sc["spec"], Schedule(), world=w, max_steps=1500)
+        run.steps = 1000
+        run.drain()
+        judge_audit(c, w.audit(), {"engine": "I", "scenario": f"{family}:{which}", "preemptions": {str(k): v for k, v in pre.items()}},
+                    [f"scenario:{family}:{which}"], "I")
     return c.export()
 
 
@@ -171,13 +202,14 @@ def run(c: Campaign, jobs: int) -> None:
             args.append((shard_k, (c.prop, c.tier, c.seed, names[i:i + 2])))
     except ImportError:
         c.extra["engine_k"] = "not built in this revision"
-    try:
-        from vlib.engine_i import SCENARIOS
+    from checks import c04 as _c04, c07 as _c07, c11 as _c11
 
-        for which in SCENARIOS:
-            args.append((shard_i, (c.prop, c.tier, c.seed, which)))
-    except ImportError:
-        c.extra["engine_i"] = "not built in this revision"
+    for which in _c04.scenarios():
+        args.append((shard_i, (c.prop, c.tier, c.seed, "c04", which)))
+    for which in _c11.scenarios():
+        args.append((shard_i, (c.prop, c.tier, c.seed, "c11", which)))
+    for which in _c07.pair_scenarios():
+        args.append((shard_i, (c.prop, c.tier, c.seed, "c07", which)))
     run_shards(c, _dispatch, args, jobs)
     c.rule = ("evaluations = durable status changes (audit rows with old != new) observed over all runs; distinct_nontrivial = distinct "
               "(entity kind, old, new, handler that wrote it) tuples observed. Runs: engine D specs x schedules x injected cancel / signal / "
@@ -188,7 +220,7 @@ def run(c: Campaign, jobs: int) -> None:
         "the published table is imported from stabilize.models.status at run time (a change to the table itself is not detected here)",
         "SQLite backend only",
     ]
-    for cls in ("inj:cancel", "inj:recover", "inj:signal", "feat:jump", "inj:pause", "inj:unpause"):
+    for cls in ("inj:cancel", "inj:recover", "inj:signal", "feat:jump", "inj:pause", "inj:unpause", "engine:K:runs", "engine:I:runs"):
         if c.classes.get(cls, 0) == 0:
             c.harness_error(f"generator starvation: class {cls} never produced")
 
